@@ -49,9 +49,27 @@ fn main() {
     }
     // Panics inside the subject are caught and turned into verdicts by the checks;
     // keep stderr quiet.
-    std::panic::set_hook(Box::new(|_| {}));
+    // A panic in the checking code itself (a source file of this crate) is remembered: if it is what ends
+    // the run, that is a machinery failure (exit 3), never a verdict.
+    std::panic::set_hook(Box::new(|info| {
+        if let Some(l) = info.location() {
+            if l.file().starts_with("src/") || std::env::var("HV_DEBUG_PANICS").is_ok() {
+                *LAST_OWN_PANIC.lock().unwrap() = Some(format!("{} at {}:{}", info.payload().downcast_ref::<String>().cloned().or_else(|| info.payload().downcast_ref::<&str>().map(|s| s.to_string())).unwrap_or_default(), l.file(), l.line()));
+            }
+        }
+    }));
     let cx = Ctx::new(&id, tier);
-    match id.as_str() {
+    let r = std::panic::catch_unwind(std::panic::AssertUnwindSafe(|| dispatch(&id, cx)));
+    if r.is_err() {
+        eprintln!("MACHINERY: the check for {} panicked: {}", id, LAST_OWN_PANIC.lock().unwrap().clone().unwrap_or_else(|| "(panic outside the checking code)".into()));
+        std::process::exit(3);
+    }
+}
+
+static LAST_OWN_PANIC: std::sync::Mutex<Option<String>> = std::sync::Mutex::new(None);
+
+fn dispatch(id: &str, cx: Ctx) {
+    match id {
         "C01" => props::c01::run(cx),
         "C02" => props::c02::run(cx),
         "C03" => props::c03::run(cx),
